@@ -221,6 +221,7 @@ def run(tier, seed, replay=None):
         with concurrent.futures.ThreadPoolExecutor(max_workers=12) as ex:
             obs = list(ex.map(lambda ic: run_case(binary, proto, scratch, ic[0], ic[1]), enumerate(cases)))
         todo = list(zip(cases, obs))
+        confirm_no = 0
         while todo:
             lines = [o for _, o in todo]
             tp = os.path.join(specdir, "trace.ndjson")
@@ -232,7 +233,8 @@ def run(tier, seed, replay=None):
                 break
             case, o = todo[v.hwm]
             # confirm on a fresh start
-            o2 = run_case(binary, proto, scratch, 10000 + len(rep.violations) * 7 + v.hwm, case)
+            confirm_no += 1
+            o2 = run_case(binary, proto, scratch, 100000 + confirm_no, case)
             if o2["observed"] == o["observed"]:
                 chans = "+".join(sorted(a["ch"] for a in case["assign"]))
                 rep.violation("Config:%s:%s:%s:%s" % (case["setting"], case["kind"], chans, o["observed"]),
